@@ -66,7 +66,8 @@ Definition mask (alphabet : Z) (rs : rows) (refseq : list byte) (start len : Z) 
                             | RepFixed b => b
                             | RepMaj => maj_byte x2e (column rs i)
                             end in
-               Some (map (fun r => (fst r, mask_row start len nogap noref rep refc (snd r))) rs)
+               (* the reference protects only when a reference sequence was given *)
+               Some (map (fun r => (fst r, mask_row start len nogap useref rep refc (snd r))) rs)
            end
        end.
 
